@@ -627,7 +627,12 @@ impl<'a> Gen<'a> {
             }
             4 => {
                 let (v, tv) = self.expr(elem, d);
-                let n = if self.pct(self.p.err) { self.expr(&Ty::Int, d).0 } else { E::Int(self.rng.range(0, 3)) };
+                // lengths stay small (an enormous repeat only exhausts memory): error-prone ones are reduced to -3..=3
+                let n = if self.pct(self.p.err) {
+                    E::Bin("%", Box::new(self.expr(&Ty::Int, d).0), Box::new(E::Int(4)))
+                } else {
+                    E::Int(self.rng.range(0, 3))
+                };
                 self.tag("expr:repeat");
                 (E::Rep(Box::new(v), Box::new(n)), Ty::arr(tv))
             }
